@@ -114,6 +114,7 @@ def _box_env(run, **kw):
     env = ScriptEnv(run.trace, c["script"], obs_dim=c.get("obs_dim", 3),
                     low=c.get("low", [-1.0]), high=c.get("high", [1.0]),
                     snap_on_step=c.get("snap_on_step", True), **kw)
+    env.int_first = bool(c.get("int_first"))
     run.envs = [env]
     if c.get("outer_box"):
         env = _outer_box(env, run.trace, *c["outer_box"])
@@ -128,6 +129,7 @@ def _disc_env(run):
     env = ScriptEnv(run.trace, c["script"], obs_dim=c.get("obs_dim", 3),
                     n_actions=c.get("n_actions", 3),
                     snap_on_step=c.get("snap_on_step", True))
+    env.int_first = bool(c.get("int_first"))
     run.env = env
     run.envs = [env]
     return env
@@ -824,6 +826,13 @@ def make_run(name, cfg, trace=None):
         cfg = {**cfg, **options}
     run = Run(name, trace, cfg)
     BUILDERS[name](run)
+    if cfg.get("distinct_targets"):
+        # user-supplied target networks that differ from the online ones (warm
+        # start / continued training): every copy into them is visible
+        from vf import parts
+        for tname, obj in list(trace.objs.items()):
+            if "target" in tname:
+                parts.rescale(obj, 0.9)
     if cfg.get("own_buffer"):
         # let the routine create its replay buffer itself (replay_buffer=None);
         # the monitor rebinds the buffer class inside the routine's module
